@@ -336,37 +336,42 @@ Section Sound.
     - destruct (lookup d k t); cbn; split; try intros v'; congruence.
   Qed.
 
-  Lemma plookup_go_prunes p : forall t d k,
+  Lemma plookup_go_prunes p : forall t,
     prunes p t ->
-    plookup_go H (N.of_nat d) k p = Unknown \/
-    plookup_go H (N.of_nat d) k p = of_opt (lookup d k t) \/ collision H.
+    (forall d k, plookup_go H (N.of_nat d) k p = Unknown \/
+                 plookup_go H (N.of_nat d) k p = of_opt (lookup d k t)) \/ collision H.
   Proof.
-    induction p as [|h|k0 v0|bl lb lf IHlf l IHl r IHr]; intros t d k P; cbn [prunes] in P.
-    - subst t. right. left. reflexivity.
-    - cbn [plookup_go]. destruct (bytes_eqb h (H [])) eqn:Z; [|auto].
-      apply bytes_eqb_eq in Z. subst h. destruct (empty_root t Z) as [->|C]; auto.
-    - subst t. right. left. cbn [plookup_go lookup]. destruct (bytes_eqb k0 k); reflexivity.
+    induction p as [|h|k0 v0|bl lb lf IHlf l IHl r IHr]; intros t P; cbn [prunes] in P.
+    - subst t. left. intros d k. right. reflexivity.
+    - destruct (bytes_eqb h (H [])) eqn:Z.
+      + pose proof Z as Z'. apply bytes_eqb_eq in Z'. subst h.
+        destruct (empty_root t Z') as [->|C]; [|auto].
+        left. intros d k. right. cbn [plookup_go]. rewrite Z. reflexivity.
+      + left. intros d k. left. cbn [plookup_go]. rewrite Z. reflexivity.
+    - subst t. left. intros d k. right. cbn [plookup_go lookup]. destruct (bytes_eqb k0 k); reflexivity.
     - destruct t as [|k' v'|lbl olf tl tr]; try contradiction.
-      destruct P as (-> & -> & Plf & Pl & Pr). cbn [plookup_go lookup].
+      destruct P as (-> & -> & Plf & Pl & Pr).
+      destruct (IHl tl Pl) as [Gl|C]; [|auto]. destruct (IHr tr Pr) as [Gr|C]; [|auto].
+      left. intros d k. cbn [plookup_go lookup].
       rewrite <- Nat2N.inj_add, Nat2N.id.
       set (d' := (d + length lbl)%nat). set (kl := length (bits_of k)).
       destruct lf as [|h|k1 v1|bl1 lb1 lf1 l1 r1]; cbn [prunes_lf] in Plf; try contradiction; [|left; reflexivity|].
       + subst olf.
         destruct (Nat.eqb_spec kl d') as [Ek|Nk].
-        * rewrite Ek, N.eqb_refl. right. left. reflexivity.
+        * rewrite Ek, N.eqb_refl. right. reflexivity.
         * destruct (N.eqb_spec (N.of_nat kl) (N.of_nat d')) as [E2|_]; [lia|].
           destruct (Nat.ltb_spec kl d') as [Lt|Ge].
-          -- destruct (N.ltb_spec (N.of_nat kl) (N.of_nat d')) as [_|G2]; [|lia]. right. left. reflexivity.
+          -- destruct (N.ltb_spec (N.of_nat kl) (N.of_nat d')) as [_|G2]; [|lia]. right. reflexivity.
           -- destruct (N.ltb_spec (N.of_nat kl) (N.of_nat d')) as [L2|_]; [lia|].
-             destruct (bit (bits_of k) d'); [apply IHr|apply IHl]; assumption.
+             destruct (bit (bits_of k) d'); [apply Gr|apply Gl].
       + subst olf.
         destruct (Nat.eqb_spec kl d') as [Ek|Nk].
-        * rewrite Ek, N.eqb_refl. right. left. cbn [plookup_go]. destruct (bytes_eqb k1 k); reflexivity.
+        * rewrite Ek, N.eqb_refl. right. cbn [plookup_go]. destruct (bytes_eqb k1 k); reflexivity.
         * destruct (N.eqb_spec (N.of_nat kl) (N.of_nat d')) as [E2|_]; [lia|].
           destruct (Nat.ltb_spec kl d') as [Lt|Ge].
-          -- destruct (N.ltb_spec (N.of_nat kl) (N.of_nat d')) as [_|G2]; [|lia]. right. left. reflexivity.
+          -- destruct (N.ltb_spec (N.of_nat kl) (N.of_nat d')) as [_|G2]; [|lia]. right. reflexivity.
           -- destruct (N.ltb_spec (N.of_nat kl) (N.of_nat d')) as [L2|_]; [lia|].
-             destruct (bit (bits_of k) d'); [apply IHr|apply IHl]; assumption.
+             destruct (bit (bits_of k) d'); [apply Gr|apply Gl].
   Qed.
 
   (* the write log *)
